@@ -149,6 +149,8 @@ def _ambiguity_case(members):
                     base = dict((aa, cc) for cc, aa in data[members[0]]['structure']).get(a, 0)
                     E.eq('sequence_with_code.atoms[%s]' % a, s.labile_formula.atoms[a] * n, base * n + c)
                 E.eq('sequence_with_code.cell_volume', s.cell_volume * n, data[members[0]]['vol'] * n + wvol)
+                E.eq('sequence_with_code.charge', s.charge * n, data[members[0]]['q'] * n + wq)
+                E.eq('installed_code.charge', fasta.AMINO_ACID_CODES['B'].charge * n, wq)
             finally:
                 if saved is not None:
                     fasta.AMINO_ACID_CODES['B'] = saved
@@ -170,12 +172,14 @@ def _real_tables_case(case, tier, seed):
             res['claims'] += 1
             n = len(members)
             vol = sum(tab[m].cell_volume for m in members) / n
+            chg = sum(tab[m].charge for m in members) / n
             atoms = {}
             for m in members:
                 for a, c in tab[m].labile_formula.atoms.items():
                     atoms[a] = atoms.get(a, 0) + c / n
             got = tab[code]
-            ok = abs(got.cell_volume - vol) <= 1e-9 * vol and set(got.labile_formula.atoms) == set(atoms) and \
+            ok = abs(got.cell_volume - vol) <= 1e-9 * vol and (tname != 'aa' or abs(got.charge - chg) <= 1e-9) and \
+                set(got.labile_formula.atoms) == set(atoms) and \
                 all(abs(got.labile_formula.atoms[a] - c) <= 1e-9 * c for a, c in atoms.items())
             if ok:
                 res['discharged'] += 1
